@@ -42,7 +42,7 @@ def cases(tier, seed):
     for env in ("tsp", "cvrp", "cvrptw", "sdvrp", "svrp", "op", "pctsp", "spctsp", "pdp", "mtsp", "mtvrp"):
         for n in ((6, 10) if tier == "quick" else (5, 6, 10, 20)):
             for dec in ("greedy", "sampling", "multistart_sampling"):
-                if dec.startswith("multistart") and env in ("mtsp", "svrp", "op"):
+                if dec.startswith("multistart") and env in ("mtsp",):
                     continue
                 for r in range(1 if tier == "quick" else 4):
                     out.append(dict(kind="policy", env=env, n=n, B=rnd.choice([1, 4, 7]), decode=dec, T=rnd.choice([1.0, 3.0]), s=rnd.randrange(10**6)))
